@@ -8,6 +8,7 @@ CONSTANTS
   ValsHi <- MCBin
   Kinds = {"arch", "param"}
   MaxDec = 2
+  MaxDecHi = 2
   MaxOps = 6
 INVARIANT GramDef
 INVARIANT IsInverse
